@@ -66,6 +66,14 @@ func isIdent(s string) bool {
 	return true
 }
 
+func bytesOfLen(n int, b byte) []byte {
+	out := make([]byte, n)
+	for i := range out {
+		out[i] = b + byte(i)
+	}
+	return out
+}
+
 func newProgGen(rng *RNG) *progGen {
 	g := &progGen{rng: rng}
 	n := 2 + rng.Intn(4)
@@ -133,11 +141,30 @@ func (g *progGen) constant(kind int) STerm {
 	case KDate:
 		return aDate(uint64(1000 + r.Intn(3)))
 	case KBytes:
+		if r.Chance(6) {
+			return aBytes(bytesOfLen(boundarySizes[r.Intn(len(boundarySizes))], byte(r.Intn(3))))
+		}
 		return aBytes([]byte{byte(r.Intn(3))})
 	case KBool:
 		return aBool(r.Bool())
 	case KSet:
-		switch r.Intn(4) {
+		// sets of every element type; a set of STRINGS holds symbol indexes, which every conversion between two
+		// symbol tables (token -> authorizer, block -> token) has to translate without touching the original
+		switch r.Intn(7) {
+		case 4, 5:
+			a, b := strPool[r.Intn(len(strPool))], strPool[r.Intn(len(strPool))]
+			if r.Chance(30) {
+				b = nextPublishedDefault()
+			}
+			if r.Chance(30) {
+				return aSet(aStr(a), aStr(b), aStr("only in a set"))
+			}
+			return aSet(aStr(a), aStr(b))
+		case 6:
+			if r.Bool() {
+				return aSet(aDate(uint64(1000+r.Intn(3))), aDate(uint64(1001+r.Intn(3))))
+			}
+			return aSet(aBool(r.Bool()))
 		case 0:
 			return aSet(aInt(int64(r.Intn(3))), aInt(int64(3+r.Intn(2))))
 		case 1: // elements may repeat, any order: Set.Equal must be an equivalence (fix of Set.Equal)
